@@ -215,6 +215,9 @@ def gen_project(seed, idx, family=None):
     with_top = R.random() < 0.75 or family in ("block_config", "config_spec")
     with_cfg = with_top and (family == "block_config")
     use_all = R.random() < 0.6          # `use lib.pkg.all` vs selected names
+    with_res = R.random() < 0.6 or family == "resolution_function"      # resolution indications, reject times
+    with_rec_res = family == "resolution_function"                        # record resolution `(elem f) rec` (open finding site)
+    with_blkmap = R.random() < 0.6 or family == "block_map_formal"        # block header generic/port clauses and maps
     lib1_ent = P.ent("lib", "library", name=L1, renameable=False)
     lib2_ent = P.ent("lib", "library", name=L2, renameable=False)
     P.used.update([L1.lower(), L2.lower(), "work"])
@@ -295,6 +298,8 @@ def gen_project(seed, idx, family=None):
     res_f = P.ent("resolve", "function")
     res_p = P.ent("rv", "parameter")
     res_st = P.ent("rbit_t", "subtype")
+    res_bv = P.ent("rbv_t", "subtype")
+    res_rec = P.ent("rrec_t", "subtype")
     ext_c = P.ent("ext", "constant", name="\\Ext " + R.choice(["Id", "a-b", "x y"]) + "\\", extended=True) \
         if R.random() < 0.3 else None
 
@@ -327,9 +332,13 @@ def gen_project(seed, idx, family=None):
     ln("  function ", d(f_col), SP, "(", d(fp_col), " : ", r(col_t), ") return ", r(col_t), ";")
     ln("  procedure ", d(pr1), " (signal ", d(pr_s), " : out bit; ", d(pr_v), " : in integer);")
     ln("  function ", P.mark("op_decl", "\"+\""), " (l, r : ", r(col_t), ") return ", r(col_t), ";")
-    if family == "resolution_function":
+    if with_res:
         ln("  function ", d(res_f), " (", d(res_p), " : bit_vector) return bit;")
         ln("  subtype ", d(res_st), " is ", r(res_f, "resolution_function"), " bit;")
+        ln("  subtype ", d(res_bv), " is (", r(res_f, "resolution_function"), ") bit_vector(0 to 3);")
+        if with_rec_res:
+            ln("  subtype ", d(res_rec), " is (", r(el2_a, "record_resolution_element"), " ", r(res_f, "resolution_function"),
+               ") ", r(rec2_t), ";")
     ln("  component ", d(comp), " is")
     ln("    generic (", d(cg), " : integer := 4);")
     ln("    port (", d(cpa), " : in bit; ", d(cpb), " : out bit);")
@@ -368,7 +377,7 @@ def gen_project(seed, idx, family=None):
     ln("    if l = r then return l; end if;")
     ln("    return ", r(col_t), "'val((", r(col_t), "'pos(l) + ", r(col_t), "'pos(r)) mod 4);")
     ln("  end function \"+\";")
-    if family == "resolution_function":
+    if with_res:
         ln("  function ", d(res_f), " (", d(res_p), " : bit_vector) return bit is")
         ln("  begin")
         ln("    return ", r(res_p), "(", r(res_p), "'low);")
@@ -399,6 +408,11 @@ def gen_project(seed, idx, family=None):
     av = P.ent("av", "signal")
     lv = P.ent("lv", "signal")
     rb = P.ent("rb", "signal")
+    rbv = P.ent("rbv", "signal")
+    rrs = P.ent("rrs", "signal")
+    rj_c = P.ent("rjc", "signal")
+    rj_s = P.ent("rjs", "signal")
+    t_rej = P.ent("t_rej", "constant")
     locf = P.ent("loc", "function")
     locp = P.ent("a", "parameter")
     proc = P.ent("p_main", "label")
@@ -524,8 +538,13 @@ def gen_project(seed, idx, family=None):
     ln("  signal ", d(unused_s), " : bit;")
     if two_libs:
         ln("  signal ", d(lv), " : ", *([] if use_all and False else [r(lib2_ent), ".", r(UPK), "."]), r(u_lvl), " := '0';")
-    if family == "resolution_function":
+    if with_res:
         ln("  signal ", d(rb), " : ", r(res_st), ";")
+        ln("  signal ", d(rbv), " : ", r(res_bv), ";")
+        ln("  signal ", d(rj_c), ", ", d(rj_s), " : bit;")
+        ln("  constant ", d(t_rej), " : time := 1 ns;")
+        if with_rec_res:
+            ln("  signal ", d(rrs), " : ", r(res_rec), ";")
     ln("  attribute ", r(attr), " of ", r(s1), " : signal is 1;")
     ln("  alias ", d(al), " is ", r(s2), ";")
     ln("  function ", d(locf), " (", d(locp), " : integer) return integer is")
@@ -581,6 +600,8 @@ def gen_project(seed, idx, family=None):
     ln("    ", d(if_l), " : if ", r(s1), " = '1' then")
     ln("      null;")
     ln("    end if ", e(if_l), ";")
+    if with_res:
+        ln("    ", r(rj_s), " <= reject ", r(t_rej, "delay_reject"), " inertial ", r(s2), " after 3 ns;")
     ln("    wait on ", r(s1), ", ", r(s2), " until ", r(s2), " = '1';")
     ln("  end process ", e(proc2), ";")
     ln("  ", r(pr1), "(", r(s1), ", 3);")
@@ -590,14 +611,14 @@ def gen_project(seed, idx, family=None):
     ln("  ", r(s2), " <= ", r(s1), " and ", r(p_a), ";")
     ln("  ", r(p_b), " <= ", r(s2), ";")
     ln("  ", d(blk), " : block is")
-    if family == "block_map_formal":
+    if with_blkmap:
         ln("    generic (", d(bgen), " : integer := 1);")
         ln("    generic map (", r(bgen, "block_map_formal"), " => ", r(g_w), ");")
         ln("    port (", d(bport), " : in bit);")
         ln("    port map (", r(bport, "block_map_formal"), " => ", r(s1), ");")
     ln("    signal ", d(bs), " : bit;")
     ln("  begin")
-    if family == "block_map_formal":
+    if with_blkmap:
         ln("    ", r(bs), " <= ", r(bport), " when ", r(bgen), " > 0 else '0';")
     else:
         ln("    ", r(bs), " <= ", r(s1), ";")
@@ -610,8 +631,12 @@ def gen_project(seed, idx, family=None):
     ln("  ", d(c_inst), " : ", r(comp))
     ln("    generic map (", r(cg), " => 2)")
     ln("    port map (", r(cpa), " => ", r(s1), ", ", r(cpb), " => open);")
-    if family == "resolution_function":
+    if with_res:
         ln("  ", r(rb), " <= ", r(s1), ";")
+        ln("  ", r(rbv), "(0) <= ", r(s1), ";")
+        ln("  ", r(rj_c), " <= reject ", r(t_rej, "delay_reject"), " inertial ", r(s1), " after 2 ns;")
+        if with_rec_res:
+            ln("  ", r(rrs), ".", r(el2_a), " <= ", r(s1), ";")
     ln("end architecture ", e(A), ";")
 
     # ------------------------------------------------------------------ lib1: top
